@@ -1,11 +1,15 @@
 import AdeptProofs.Lemmas.GradAlloc
+import AdeptProofs.Lemmas.GradObj
 /-!
 # C08 — every live active object owns a distinct gradient slot, in any order
 
 Property theorems only; helper lemmas live in `AdeptProofs/Lemmas/GradAlloc.lean`.
-All statements are about `AdeptModel/GradAlloc.lean`, the transcription of
-`Stack::register_gradient(s)`, `unregister_gradient(s)` and `new_recording`; the
-correspondence check (checks/c08.py) ties that model to the C++ on every run.
+The first part is about `AdeptModel/GradAlloc.lean`, the transcription of
+`Stack::register_gradient(s)`, `unregister_gradient(s)` and `new_recording`; the second part (`C08_obj_…`) is about the
+OBJECT layer `AdeptModel/GradObj.lean` (Active, Storage reference counting, Array / SpecialMatrix construction, copy, link, views,
+resize, clear, assignment to an empty array, swap, destruction, FixedArray, std::vector<adouble>, adouble[n], allocation
+failure), whose operations are sequences of allocator calls: it DISCHARGES the hypothesis `Legal` of the first part.  The
+correspondence check (checks/c08.py) ties both models to the C++ on every run.
 -/
 namespace Adept.GradAlloc
 
@@ -61,6 +65,150 @@ example : ∃ s L, runHist stackInit []
     [.reg1, .reg1, .regN 3, .reg1, .unreg1 1, .unregN 2 3, .reg1, .regN 2] = some (s, L)
     ∧ s.gaps = [(4, 4)] ∧ s.recent = some 0 ∧ L.length = 4 := by
   refine ⟨_, _, rfl, ?_⟩
+  decide
+
+/-! ## The object layer: `Legal` is discharged
+
+`orun (initP P) ops` is the state after the object-level history `ops` on a fresh stack (`P` = packet size of the build, which
+decides the padding of matrix rows); `trace s` is the sequence of allocator operations performed so far; `blocks s` are the slot
+blocks of the live OWNERS (every adouble / vector element / adouble[] element, every active FixedArray, every Storage). -/
+open Adept.GradObj
+
+/-- Every object-level history, of any length and in any order (inapplicable operations included: they do nothing), performs a
+    LEGAL allocator history — every release names a block that is live — which leads exactly to the allocator state of the stack,
+    and the live blocks of that allocator history are the blocks of the live owners, no more (nothing leaks) and no fewer. -/
+theorem C08_obj_history_legal {P : Nat} (hP : 0 < P) (ops : List OOp) :
+    ∃ L, runHist stackInit [] (trace (orun (initP P) ops)) = some ((orun (initP P) ops).ga, L) ∧
+         (blocks (orun (initP P) ops)).Perm L := by
+  obtain ⟨L, h⟩ := orun_inv ops (oinv_init hP)
+  exact ⟨L, h.hist, h.perm⟩
+
+/-- the same for every sequence of the primitive member-level actions (register / unregister / new Storage / add_link /
+    remove_link / swap) the object operations are made of -/
+theorem C08_obj_prim_history_legal {P : Nat} (hP : 0 < P) (ps : List Prim) :
+    ∃ L, runHist stackInit [] (trace (prun (initP P) ps)) = some ((prun (initP P) ps).ga, L) ∧
+         (blocks (prun (initP P) ps)).Perm L := by
+  obtain ⟨L, h⟩ := prun_inv ps (oinv_init hP)
+  exact ⟨L, h.hist, h.perm⟩
+
+/-- At every point of every object-level history the slot blocks of distinct live owners (scalars, vector elements, fixed
+    arrays, storages) are pairwise disjoint, non-empty, below `max_gradients()`, and `n_gradients_registered()` is the total
+    size of the live owners. -/
+theorem C08_obj_owners_disjoint {P : Nat} (hP : 0 < P) (ops : List OOp) :
+    let s := orun (initP P) ops
+    (blocks s).Pairwise (fun B C => ∀ j, ¬ (inBlock B j ∧ inBlock C j)) ∧
+    (∀ B ∈ blocks s, 0 < B.2 ∧ B.1 + B.2 ≤ s.ga.maxGrad) ∧
+    s.ga.nReg = ((blocks s).map (fun B => (B.2 : Int))).sum := by
+  intro s
+  obtain ⟨L, h⟩ := orun_inv ops (oinv_init hP)
+  have hinv := inv_of_OInv h
+  refine ⟨h.perm.symm.pairwise hinv.disj (fun hxy => disj_symm hxy), ?_, ?_⟩
+  · intro B hB
+    have := hinv.below B (h.perm.mem_iff.1 hB)
+    exact ⟨this.1, Nat.le_trans this.2 hinv.le_max⟩
+  · rw [hinv.count]
+    exact (perm_sum_int _ h.perm).symm
+
+/-- Views, copies and links share their owner's slots and nothing else: an array object that points to a storage points to a
+    LIVE storage (one of the owners), its gradient index is the storage's plus its data offset, every slot it addresses lies in
+    the block of that storage, and therefore in the block of no other live owner. -/
+theorem C08_obj_views_within_owner {P : Nat} (hP : 0 < P) (ops : List OOp) :
+    let s := orun (initP P) ops
+    ∀ p ∈ s.arrs, ∀ sid, p.2.st = some sid →
+      ∃ t ∈ s.heap, t.sid = sid ∧ (t.gi, t.n) ∈ blocks s ∧ p.2.g = some (t.gi + p.2.off) ∧
+        (∀ j, t.gi + p.2.off ≤ j → j ≤ t.gi + p.2.off + ext p.2.dims p.2.strides → inBlock (t.gi, t.n) j) ∧
+        (∀ B ∈ blocks s, B ≠ (t.gi, t.n) →
+          ∀ j, t.gi + p.2.off ≤ j → j ≤ t.gi + p.2.off + ext p.2.dims p.2.strides → ¬ inBlock B j) := by
+  intro s p hp sid hst
+  obtain ⟨L, h⟩ := orun_inv ops (oinv_init hP)
+  obtain ⟨t, ht, h1, h2, h3⟩ := h.refs p hp sid hst
+  have hmem : (t.gi, t.n) ∈ blocks s := by
+    simp only [blocks, List.mem_append]
+    exact Or.inr (List.mem_map.2 ⟨t, ht, rfl⟩)
+  have hin : ∀ j, t.gi + p.2.off ≤ j → j ≤ t.gi + p.2.off + ext p.2.dims p.2.strides → inBlock (t.gi, t.n) j := by
+    intro j hj1 hj2
+    simp only [inBlock]
+    omega
+  refine ⟨t, ht, h1, hmem, h3, hin, ?_⟩
+  intro B hB hne j hj1 hj2 hBj
+  have hd := (C08_obj_owners_disjoint hP ops).1
+  exact pairwise_mem (fun hxy => disj_symm hxy) hd hB hmem hne j ⟨hBj, hin j hj1 hj2⟩
+
+/-- The gradients of a storage are held exactly as long as some array links to it: the link count of every live storage is the
+    number of array objects pointing to it and is positive (a storage without link does not exist: `remove_link` released its
+    block when the LAST link went), every `storage_` pointer names a live storage, and no dangling pointer is ever followed. -/
+theorem C08_obj_storage_live_iff_linked {P : Nat} (hP : 0 < P) (ops : List OOp) :
+    let s := orun (initP P) ops
+    (∀ t ∈ s.heap, 0 < t.links ∧ t.links = refcount s.arrs t.sid) ∧
+    (∀ p ∈ s.arrs, ∀ sid, p.2.st = some sid → ∃ t ∈ s.heap, t.sid = sid) ∧
+    s.ub = false := by
+  intro s
+  obtain ⟨L, h⟩ := orun_inv ops (oinv_init hP)
+  refine ⟨h.links, ?_, h.noub⟩
+  intro p hp sid hst
+  obtain ⟨t, ht, h1, _⟩ := h.refs p hp sid hst
+  exact ⟨t, ht, h1⟩
+
+/-- Allocation failure: a constructor whose data allocation throws calls the allocator not at all and leaves no owner behind
+    (in ANY state), and a resize whose data allocation throws does exactly what `clear()` does: it releases this reference and
+    registers nothing. -/
+theorem C08_obj_alloc_fault_registers_nothing (s : OS) (h kind : Nat) (dims : List Nat) :
+    ((ostep s (.arr h kind dims true)).ga = s.ga ∧ trace (ostep s (.arr h kind dims true)) = trace s ∧
+      blocks (ostep s (.arr h kind dims true)) = blocks s) ∧
+    (expand s (.resize h dims true) = none ∨ ostep s (.resize h dims true) = ostep s (.clear h)) := by
+  constructor
+  · have e : expand s (.arr h kind dims true) =
+        (if (freshHandle s h && dims.length == nArgs kind) = true then
+          (if dims.any (fun d => d == 0) = true then some [Prim.arrNew h kind]
+           else some [Prim.arrNew h kind, Prim.arrDel h])
+         else none) := rfl
+    obtain ⟨h1, h2, h3, h4⟩ := pstep_arrNew_frame s h kind
+    obtain ⟨g1, g2, g3, g4⟩ := pstep_arrDel_frame (pstep s (.arrNew h kind)) h
+    unfold ostep
+    rw [e]
+    by_cases c1 : (freshHandle s h && dims.length == nArgs kind) = true
+    · by_cases c2 : dims.any (fun d => d == 0) = true
+      · rw [if_pos c1, if_pos c2]
+        simp only [prun, trace, blocks, h1, h2, h3, h4, and_self]
+      · rw [if_pos c1, if_neg c2]
+        simp only [prun, trace, blocks, h1, h2, h3, h4, g1, g2, g3, g4, and_self]
+    · rw [if_neg c1]
+      simp only [and_self]
+  · have e1 : expand s (.resize h dims true) =
+        (match s.arrs.lookup h with
+         | some a =>
+           if (dims.length != nArgs a.kind) = true then none
+           else if dims.any (fun d => d == 0) = true then some [Prim.arrRelease h]
+           else some [Prim.arrRelease h]
+         | none => none) := rfl
+    have e2 : expand s (.clear h) =
+        (match s.arrs.lookup h with
+         | some _ => some [Prim.arrRelease h]
+         | none => none) := rfl
+    unfold ostep
+    rw [e1, e2]
+    cases hl : s.arrs.lookup h with
+    | none => left; rfl
+    | some a =>
+      by_cases hlen : (dims.length != nArgs a.kind) = true
+      · left; simp [hlen]
+      · right
+        simp [hlen]
+
+/-! Non-vacuity of the object-layer theorems: a concrete history — a scalar, a 2x5 matrix whose rows are padded (packet size 2:
+12 slots), a copy of it, a view of its second row, destruction of the PARENT, a scalar, a linked vector that is then resized
+(releases only its own reference), a failing construction — reaches a state with a storage of three links that outlived its
+parent, views inside it, a recycled gap and a legal trace. -/
+example :
+    let s := orun (initP 2) [.act 0, .arr 1 2 [2, 5] false, .copy 2 1, .slice 3 1 [.fix 1, .rng 0 4 1], .del 1, .act 4,
+                             .arr 5 1 [3] false, .arr 6 1 [2] false, .link 6 5, .resize 6 [4] false, .arr 7 1 [9] true,
+                             .del 0, .actTemp 8]
+    s.heap.map (fun t => (t.gi, t.n, t.links)) = [(17, 4, 1), (14, 3, 1), (1, 12, 2)] ∧
+    s.arrs.map (fun p => (p.1, p.2.g, ext p.2.dims p.2.strides + 1)) =
+      [(6, some 17, 4), (5, some 14, 3), (3, some 7, 5), (2, some 1, 11)] ∧
+    s.owns.map (fun p => (p.1, p.2.bs)) = [(8, [(21, 1)]), (4, [(13, 1)])] ∧
+    s.ga.gaps = [(0, 0)] ∧ s.ga.nReg = 21 ∧ s.ub = false ∧
+    trace s = [.reg1, .regN 12, .reg1, .regN 3, .regN 2, .unregN 17 2, .regN 4, .unreg1 0, .reg1, .reg1, .unreg1 0] := by
   decide
 
 end Adept.GradAlloc
